@@ -283,12 +283,16 @@ Proof.
 Qed.
 Lemma zdedup_length : forall l, (length (zdedup l) <= length l)%nat.
 Proof. induction l as [|x t IH]; cbn [zdedup length]; [lia|]. destruct (zmem x t); cbn [length]; lia. Qed.
+Lemma zinsert_length : forall x l, length (zinsert x l) = S (length l).
+Proof. induction l as [|y t IH]; cbn [zinsert length]; [reflexivity|]. destruct (Z.leb x y); cbn [length]; [reflexivity | rewrite IH; reflexivity]. Qed.
+Lemma zsort_length : forall l, length (zsort l) = length l.
+Proof. induction l as [|x t IH]; cbn [zsort fold_right length]; [reflexivity|]. fold (zsort t). rewrite zinsert_length, IH. reflexivity. Qed.
 Lemma selection_in : forall m uids r, In r (selection m uids) -> In r (mb_rows m).
 Proof. intros m uids r H. unfold selection in H. apply select_rows_in in H. assumption. Qed.
 Lemma selection_length : forall m uids, zlen (selection m uids) <= zlen uids.
 Proof.
   intros m uids. unfold selection, zlen.
-  pose proof (select_rows_length (mb_rows m) (zdedup uids)). pose proof (zdedup_length uids). lia.
+  pose proof (select_rows_length (mb_rows m) (zsort (zdedup uids))). pose proof (zsort_length (zdedup uids)). pose proof (zdedup_length uids). lia.
 Qed.
 
 (* ---------- the UIDVALIDITY generator ---------- *)
